@@ -58,7 +58,19 @@ class CSSMediaRule(cssrule.CSSRuleRules):
         """Return serialized property cssText."""
         return cssutils.ser.do_CSSMediaRule(self)
 
-    def _setCssText(self, cssText):  # noqa: C901
+    def _setCssText(self, cssText):
+        """see :meth:`_setCssTextUnguarded`, if the new text is rejected with
+        an exception media and rules are left as they were"""
+        oldMedia = self._media
+        oldCssRules = self._cssRules
+        try:
+            self._setCssTextUnguarded(cssText)
+        except Exception:
+            self._media = oldMedia
+            self._cssRules = oldCssRules
+            raise
+
+    def _setCssTextUnguarded(self, cssText):  # noqa: C901
         """
         :param cssText:
             a parseable string or a tuple of (cssText, dict-of-namespaces)
